@@ -4,6 +4,7 @@ shape x material pairs, and TLC-validated random call histories recorded from re
 Expected values are the monomials (exponent vectors over the material factors) printed by TLC; this module only
 measures the material inputs f(T) once per (material, temperature), evaluates the printed monomials with them and
 compares with what the real objects return (rtol 1e-9: a handful of double operations)."""
+import copy
 import json
 import math
 import os
@@ -20,7 +21,7 @@ HEIGHT = 2.0            # block height: volume = area * height, mass per unit he
 RTOL = 1e-9             # a handful of double multiplications / divisions per observable
 ABS = ("e1", "e2", "n")
 FRACS = {3: (0.12, 0.5, 0.88), 4: (0.12, 0.37, 0.63, 0.88)}
-ACTIONS = ("ATemp", "ADim", "ALink")
+ACTIONS = ("ATemp", "ARamp", "ADim", "ALink", "ACopy")
 _SELFTEST = False
 _CACHE = {}
 
@@ -60,22 +61,28 @@ class Side:
 
 
 class Binding:
-    def __init__(self, s1, s2):
+    def __init__(self, s1, s2, rng_c=None):
         self.s = (s1, s2)
         self.kinds = [s1.kind, s2.kind]
         self.fac = list(s1.vals) + list(s2.vals)           # atom (c,t) -> index (c-1)*NT + t - 1
         self.nt = len(s1.temps)
+        self.range_c = tuple(rng_c) if rng_c else (min(s1.temps), max(s1.temps))   # shared valid range (ramps stay inside)
 
     def describe(self):
-        return {"c1": self.s[0].describe(), "c2": self.s[1].describe()}
+        return {"c1": self.s[0].describe(), "c2": self.s[1].describe(), "range_C": list(self.range_c)}
+
+    def side(self, ci, src):
+        """ci = 0, 1 the constructed components, 2 the duplicate (it has the shape / material / table values of its source)."""
+        return self.s[ci] if ci < 2 else self.s[src - 1]
 
     def supports(self, act):
-        """UnshapedComponent has no dimensions: only behaviours that never touch a dimension of component 1."""
+        """UnshapedComponent has no dimensions: only behaviours that never touch a dimension of component 1 (or of a
+        duplicate, which may be component 1's)."""
         s1 = self.s[0]
         if s1.real:
             return True
         if act["n"] == "SetDim":
-            return act["c"] != 1
+            return act["c"] == 2
         if act["n"] == "SetLink":
             return False
         return True
@@ -91,7 +98,7 @@ def binding_from(desc):
     for i, k in enumerate(("c1", "c2")):
         d = desc[k]
         sides.append(Side(i + 1, d["shape"], d["role"], mats[d["material"]], d["temps_C"], partner=d["partner"]))
-    return Binding(*sides)
+    return Binding(*sides, rng_c=desc.get("range_C"))
 
 
 def evalmono(e, fac):
@@ -135,24 +142,53 @@ class Adapter:
                 nd = c.getNumberDensities()
             w.comp.append(c)
             w.nd0.append(dict(nd))
+        w.src = 0
         return w
+
+    def ramp(self, comp, target, k):
+        """k setTemperature calls: one jump to the start of the ramp, then steps of 0.05 - 0.09 degC through temperatures
+        that are not in the table (inside the valid range), the last call exactly to the table temperature."""
+        lo, hi = self.b.range_c
+        inward = 1.0 if (target - lo) <= (hi - target) else -1.0
+        room = 0.45 * (hi - lo)
+        deltas, tot = [], 0.0
+        for i in range(max(1, k - 1)):
+            d = 0.05 + 0.04 * ((i * 0.6180339887) % 1.0)
+            if tot + d > room:
+                break
+            deltas.append(d)
+            tot += d
+        comp.setTemperature(target + inward * tot)
+        rem = tot
+        for d in deltas[:-1]:
+            rem -= d
+            comp.setTemperature(target + inward * rem)
+        comp.setTemperature(target)
+        return len(deltas) + 1
 
     # -- apply ---------------------------------------------------------------------------------------------
     def apply(self, w, a):
         w.err = ""
         n = a["n"]
+        s = self.b.side(a["c"] - 1, w.src)
         if n == "SetTemperature":
-            s = self.b.s[a["c"] - 1]
             w.comp[a["c"] - 1].setTemperature(s.temps[a["t"] - 1])
+        elif n == "Ramp":
+            self.ramp(w.comp[a["c"] - 1], s.temps[a["t"] - 1], a["k"])
+        elif n == "Copy":
+            new = copy.copy(w.comp[a["c"] - 1])             # Component.__copy__
+            self.composites.Composite.add(w.block, new)     # armi puts the duplicate into the same block
+            w.comp.append(new)
+            w.nd0.append(dict(w.nd0[a["c"] - 1]))
+            w.src = a["c"]
         elif n == "SetDim":
-            s = self.b.s[a["c"] - 1]
             try:
-                w.comp[a["c"] - 1].setDimension(s.real[a["d"]], G.VALUES[(a["c"], a["d"])][a["v"]],
+                w.comp[a["c"] - 1].setDimension(s.real[a["d"]], G.VALUES[(s.index, a["d"])][a["v"]],
                                                 retainLink=a["retain"], cold=a["cold"])
             except RuntimeError:
                 w.err = "RuntimeError"      # the refusal the specification models (no expansion correlation)
         elif n == "SetLink":
-            s, s2 = self.b.s[a["c"] - 1], self.b.s[a["c2"] - 1]
+            s2 = self.b.s[a["c2"] - 1]
             w.comp[a["c"] - 1].setLink(s.real[a["d"]], w.comp[a["c2"] - 1], s2.real[a["d2"]])
             # setLink leaves a previously cached volume in place (armi links dimensions while a block is constructed /
             # converted, before volumes are asked for); the cached volume after a bare setLink is not part of the statement
@@ -171,9 +207,9 @@ class Adapter:
         return float(v) if v is not None else None
 
     def project(self, w):
-        out = {"err": w.err, "c": []}
-        for i, s in enumerate(self.b.s):
-            c = w.comp[i]
+        out = {"err": w.err, "src": w.src, "nd0": w.nd0, "c": []}
+        for i, c in enumerate(w.comp):
+            s = self.b.side(i, w.src)
             t = c.temperatureInC
             o = {"T": s.temps.index(t) + 1 if t in s.temps else t}
             # cache-sensitive queries first: they must have been invalidated by the last mutator
@@ -197,15 +233,18 @@ class Adapter:
             o["cold"] = {r: self._q(lambda r=r: c.getDimension(r, cold=True)) for r in s.dims}
             o["at"] = [{r: self._q(lambda r=r, tc=tc: c.getDimension(r, Tc=tc)) for r in s.dims} for tc in s.temps]
             o["link"] = {a: bool(c.dimensionIsLinked(r)) for a, r in s.real.items()}
+            # which live component each linked dimension points at (identity), for classifying divergences only
+            o["linksTo"] = {a: next((j for j, x in enumerate(w.comp) if x is c.p[r].getLinkedComponent()), -1)
+                            for a, r in s.real.items() if o["link"][a]}
             out["c"].append(o)
         return out
 
     # -- the specification's observation, evaluated with the measured factors ---------------------------------
-    def _val(self, q, s, real):
+    def _val(self, q, s, real, src):
         if q["r"] != "ok":
             return q["r"]
         if q["bd"] in ABS:
-            base = G.VALUES[(q["bc"], q["bd"])][q["b"]]
+            base = G.VALUES[(q["bc"] if q["bc"] < 3 else src, q["bd"])][q["b"]]
         else:
             base = s.nominal[real]
         return base * evalmono(q["e"], self.b.fac)
@@ -213,24 +252,30 @@ class Adapter:
     def expected(self, obs, err, got):
         """obs = Obs printed by TLC for this state; got supplies the two bases that are observations themselves
         (current cold area, constructed number densities are in the world)."""
+        src, nd0 = got["src"], got["nd0"]
         exp = {"err": err, "c": []}
-        for i, s in enumerate(self.b.s):
-            so, g = obs[i], got["c"][i]
+        if [o["live"] for o in obs] != [True, True, src != 0] or len(got["c"]) != 2 + (src != 0):
+            raise AssertionError("harness: live components of the specification and of the world differ")
+        for i, g in enumerate(got["c"]):
+            so, s = obs[i], self.b.side(i, src)
             e = {"T": so["T"]}
             e["tef"] = so["tef"]["r"] if so["tef"]["r"] != "ok" else evalmono(so["tef"]["e"], self.b.fac)
             ndf = evalmono(so["nd"], self.b.fac)
-            e["nd"] = {k: v * ndf for k, v in sorted(self._nd0[i].items())}
-            e["hot"] = {r: self._val(so["hot"][a], s, r) for r, a in s.dims.items()}
-            e["cold"] = {r: self._val(so["cold"][a], s, r) for r, a in s.dims.items()}
-            e["at"] = [{r: self._val(so["at"][t][a], s, r) for r, a in s.dims.items()} for t in range(self.b.nt)]
+            e["nd"] = {k: v * ndf for k, v in sorted(nd0[i].items())}
+            e["hot"] = {r: self._val(so["hot"][a], s, r, src) for r, a in s.dims.items()}
+            e["cold"] = {r: self._val(so["cold"][a], s, r, src) for r, a in s.dims.items()}
+            e["at"] = [{r: self._val(so["at"][t][a], s, r, src) for r, a in s.dims.items()} for t in range(self.b.nt)]
             e["link"] = {a: so["link"][a] for a in s.real}
             ar = so["area"]["r"]
             if ar == "ok":
                 e["area"] = g["coldArea"] * evalmono(so["area"]["e"], self.b.fac)
-                e["mph"] = self.dt.calculateMassDensity(self._nd0[i]) * g["coldArea"] * evalmono(so["mph"]["e"], self.b.fac)
             elif ar != "mixed":
-                e["area"] = e["mph"] = ar
+                e["area"] = ar
             e["volIsAreaTimesHeight"] = e["massIsDensityTimesVolume"] = True if ar in ("ok", "mixed") else ar
+            if ar == "ok":
+                e["mph"] = self.dt.calculateMassDensity(nd0[i]) * g["coldArea"] * evalmono(so["mph"]["e"], self.b.fac)
+            elif ar != "mixed":
+                e["mph"] = ar
             exp["c"].append(e)
         return exp
 
@@ -238,7 +283,6 @@ class Adapter:
         """steps: list of (act, expected err, state key); compares after construction and after every step.
         Returns None or a divergence record."""
         w = self.build(root)
-        self._nd0 = w.nd0
         beh = []
         try:
             got = self.project(w)
@@ -302,20 +346,67 @@ def inventory(rep, nt):
     return mats, shaperoles
 
 
-def draw_fracs(rng, nt):
-    while True:
-        fr = sorted(rng.uniform(0.03, 0.97) for _ in range(nt))
-        if all(b - a >= 0.06 for a, b in zip(fr, fr[1:])):
-            rng.shuffle(fr)         # temperature indices carry no order in the specification
-            return fr
+def temp_table(m, pm, nt, variant, rng=None):
+    """The shared temperature table of a binding: nt distinct temperatures (deg C, 3 decimals) inside the intersection
+    [lo, hi] of the two materials' valid ranges.  Tables deliberately contain the exact range ends, exactly 0.0 degC when
+    0 lies in the range, and pairs only 0.05 - 0.09 degC apart (T and T + epsilon); the remaining entries are fractions
+    of the range -- fixed per variant in quick, seeded random in thorough (rng given).  Returns (temps, (lo, hi)) or None
+    when the ranges do not overlap enough.  Temperature indices carry no order in the specification."""
+    lo, hi = max(m.range()[0], pm.range()[0]), min(m.range()[1], pm.range()[1])
+    lo, hi = math.ceil(lo * 1000 - 1e-6) / 1000.0, math.floor(hi * 1000 + 1e-6) / 1000.0
+    if hi - lo < G.MIN_SPAN_C:
+        return None
+    # the ends are converted from the correlations' own units (often K): step inward by 0.001 degC until the correlations'
+    # own checks accept them
+    for _ in range(5):
+        if m.inside(lo) and pm.inside(lo):
+            break
+        lo = round(lo + 0.001, 3)
+    for _ in range(5):
+        if m.inside(hi) and pm.inside(hi):
+            break
+        hi = round(hi - 0.001, 3)
+    zero_in = lo <= 0.0 <= hi
+
+    def fr(f):
+        return round(lo + f * (hi - lo), 3)
+
+    def near(x, eps):
+        return round(x + eps if x + eps <= hi else x - eps, 3)
+
+    if rng is None:
+        z = 0.0 if zero_in else lo
+        if nt == 3:
+            tabs = ([lo, fr(0.5), hi],
+                    [z, near(z, 0.07), fr(0.88)],
+                    [fr(0.3), near(fr(0.3), 0.08), hi])
+        else:
+            tabs = ([lo, hi, z if z != lo else fr(0.4), None],
+                    [fr(0.12), near(fr(0.12), 0.09), fr(0.63), hi],
+                    [lo, near(lo, 0.05), 0.0 if zero_in and lo < 0.0 else fr(0.5), fr(0.88)])
+        t = list(tabs[variant % len(tabs)])
+        if t[-1] is None:
+            t[-1] = near(t[2], 0.06)
+    else:
+        while True:
+            x = 0.0 if zero_in and rng.random() < 0.5 else fr(rng.uniform(0.02, 0.98))
+            t = [lo if rng.random() < 0.5 else fr(rng.uniform(0.02, 0.98)), hi if rng.random() < 0.5 else fr(rng.uniform(0.02, 0.98)),
+                 x, near(x, round(rng.uniform(0.05, 0.09), 3))]
+            if nt == 3:
+                del t[rng.randrange(2)]
+            if all(abs(p - q) >= 0.045 for i, p in enumerate(t) for q in t[i + 1:]):
+                rng.shuffle(t)
+                break
+    if len(set(t)) != nt or not all(lo <= x <= hi for x in t):
+        raise tlc.MachineryError("bad temperature table %s for [%s, %s]" % (t, lo, hi))
+    return t, (lo, hi)
 
 
-def bindings(mats, shaperoles, thorough, nt, rng=None):
+def bindings(mats, shaperoles, thorough, nt, rng=None, kinds_available=None):
     """quick: every material with 3 shape-roles (rotating, so every shape-role meets >= 8 materials), partner kind
     alternating; thorough: every shape-role x every material, with a solid and with a fluid partner.  The two components
-    share one temperature table: fractions of the intersection of the two materials' valid ranges (a temperature passed
-    explicitly to getDimension travels through links to the other component); fixed fractions in quick, seeded random
-    fractions per binding when rng is given (thorough)."""
+    share one temperature table (temp_table): a temperature passed explicitly to getDimension travels through links to the
+    other component."""
     solids = [m for m, k in mats if k == "solid"]
     fluids = [m for m, k in mats if k == "fluid"]
     partners = sorted(G.PARTNERS)
@@ -326,22 +417,24 @@ def bindings(mats, shaperoles, thorough, nt, rng=None):
             srs = list(enumerate(shaperoles))
         else:
             srs = [((mi * 3 + j) % len(shaperoles), shaperoles[(mi * 3 + j) % len(shaperoles)]) for j in range(3)]
-        for si, (shape, role) in srs:
-            for pk in (("solid", "fluid") if thorough else (("solid", "fluid")[(mi + si) % 2],)):
+        for j, (si, (shape, role)) in enumerate(srs):
+            pks = ("solid", "fluid") if thorough else (("solid", "fluid")[(mi + si) % 2],)
+            if kinds_available is not None:
+                pks = [pk for pk in pks if (kind, pk) in kinds_available] or ["solid"]
+            for pk in pks:
                 pool = solids if pk == "solid" else fluids
-                fr = FRACS[nt] if rng is None else draw_fracs(rng, nt)
                 for off in range(len(pool)):
                     pm = pool[(mi + 2 * si + 1 + off) % len(pool)]
-                    temps = m.temps(fr, pm)
-                    if temps is None:
+                    tt = temp_table(m, pm, nt, j, rng)
+                    if tt is None:
                         continue
-                    s2 = Side(2, partners[n % len(partners)], (), pm, temps, partner=True)
+                    s2 = Side(2, partners[n % len(partners)], (), pm, tt[0], partner=True)
                     if s2.kind != pk:
                         continue
                     break
                 else:
                     raise tlc.MachineryError("no %s partner with an overlapping temperature range for %s" % (pk, m.name))
-                out.append(Binding(Side(1, shape, role, m, temps), s2))
+                out.append(Binding(Side(1, shape, role, m, tt[0]), s2, rng_c=tt[1]))
                 n += 1
     return out
 
@@ -352,13 +445,26 @@ def key_of(div):
     the shape class (dimension / area / mass laws) of the component that differs, and the observable."""
     b = div["binding"]
     act = div["action"]
-    an = act["n"] + ("Hot" if act.get("cold") is False else "") + ("Retain" if act.get("retain") else "")
+    an = act["n"] + ("Hot" if act.get("cold") is False else "") + ("Retain" if act.get("retain") else "") + (
+        "OnCopy" if act.get("c") == 3 else "")
     fd = div["first_difference"].split(":")[0]          # e.g. ".c[0].hot.od" or ".exception"
     m = re.match(r"\.c\[(\d)\]\.(\w+)", fd)
     if m:
         ci, head = int(m.group(1)), m.group(2)
     else:
         ci, head = act.get("c", 1) - 1, fd.strip(".") or "?"
+    if ci == 2:       # the duplicate has the shape / material of its source
+        ci = next((a["c"] for a in div.get("behaviour", []) if a["n"] == "Copy"), 1) - 1
+    if head == "volIsAreaTimesHeight" and m and isinstance(div.get("observed"), dict) and "c" in div["observed"]:
+        # a cached volume that was not invalidated.  Which component did the call change, and does the stale one link
+        # to it directly?  (clearLinkedCache invalidates the direct dependants only: chains get their own stable key)
+        obs_c = div["observed"]["c"]
+        stale = int(m.group(1))
+        changed = act.get("c", 0) - 1
+        if act.get("retain") and 0 <= changed < len(obs_c):
+            changed = obs_c[changed].get("linksTo", {}).get(act.get("d"), changed)
+        if act["n"] in ("SetTemperature", "Ramp", "SetDim", "SetLink") and stale != changed and changed not in obs_c[stale].get("linksTo", {}).values():
+            return "replay:cached-volume-stale:link-chain"
     side = b["c%d" % (ci + 1)]
     who = side["material"] if head in ("nd", "tef", "exception", "T") else side["shape"]
     return "replay:%s:%s:%s" % (an, who, head)
@@ -389,7 +495,7 @@ def replay_bindings(rep, g, states, binds, per_binding, rng):
         if pre is None:
             continue
         rootk = pre[0]["_fk"] if pre else e["_fk"]
-        kinds = tuple(states[rootk]["vars"]["kind"])
+        kinds = tuple(states[rootk]["vars"]["kind"][:2])
         by_kind.setdefault(kinds, []).append((len(pre), e, rootk))
     n = nontrivial = 0
     divs = {}
@@ -450,33 +556,39 @@ def record_traces(binds, nev, rng):
             try:
                 err = ad.apply(w, a)
                 got = ad.project(w)
-                post = {"err": err, "T": [o["T"] for o in got["c"]],
-                        "link": [[bool(o["link"].get(x, False)) for x in ABS] for o in got["c"]]}
+                post = {"err": err, "src": got["src"], "T": ([o["T"] for o in got["c"]] + [1])[:3],
+                        "link": ([[bool(o["link"].get(x, False)) for x in ABS] for o in got["c"]] + [[False] * 3])[:3]}
                 ev.append({"a": a, "post": post})
                 obs.append(got)
             except Exception as ex:  # noqa: BLE001  an escaping exception ends the history; TLC rejects the event
                 ev.append({"a": a, "post": {"exception": "%s: %s" % (type(ex).__name__, str(ex)[:200])}})
                 break
         traces.append({"id": tid, "const": root, "ev": ev})
-        raw[tid] = (b, w.nd0, obs)
+        raw[tid] = (b, obs)
     return traces, raw
 
 
 def random_call(b, w, rng, nt):
     for _ in range(20):
         r = rng.random()
-        c = rng.randint(1, 2)
-        if r < 0.4:
+        c = rng.randint(1, len(w.comp))
+        s = b.side(c - 1, w.src)
+        if r < 0.3:
             a = {"n": "SetTemperature", "c": c, "t": rng.randint(1, nt)}
-        elif r < 0.85:
+        elif r < 0.42:
+            a = {"n": "Ramp", "c": c, "t": rng.randint(1, nt), "k": rng.randint(40, 600)}
+        elif r < 0.8:
             d = rng.choice(ABS)
-            s = b.s[c - 1]
             linked = bool(s.real) and w.comp[c - 1].dimensionIsLinked(s.real[d]) if d in s.real else False
             a = {"n": "SetDim", "c": c, "d": d, "v": rng.randint(1, 2), "cold": rng.random() < 0.4,
                  "retain": bool(linked and rng.random() < 0.5)}
-        else:
-            c, d, c2, d2 = rng.choice(((1, "e2", 2, "e1"), (2, "e2", 1, "e2")))
+        elif r < 0.92 or w.src:
+            o, d, c2, d2 = rng.choice(((1, "e2", 2, "e1"), (2, "e2", 1, "e2")))
+            if s.index != o:        # a duplicate may be linked where its source may
+                c = o
             a = {"n": "SetLink", "c": c, "d": d, "c2": c2, "d2": d2}
+        else:
+            a = {"n": "Copy", "c": rng.randint(1, 2)}
         if b.supports(a):
             return a
     return None
@@ -499,7 +611,8 @@ def check_traces(rep, binds, nev, seed, label):
         k = bd["matched"]
         nxt = t["ev"][k] if k < len(t["ev"]) else {}
         b = raw[t["id"]][0] if t["id"] in raw else None
-        who = b.s[nxt.get("a", {}).get("c", 1) - 1].mat.name if b else "?"
+        srcs = [e["a"]["c"] for e in t["ev"][:k + 1] if e["a"]["n"] == "Copy"] + [1]
+        who = b.side(nxt.get("a", {}).get("c", 1) - 1, srcs[0]).mat.name if b else "?"
         rep.violation("trace:%s:%s" % (nxt.get("a", {}).get("n", bd.get("invariant", "?")), who),
                       "recorded history is not a behaviour of ThermalExpansion at event %d (%s -> %s) on %s %s" % (
                           k + 1, json.dumps(nxt.get("a")), json.dumps(nxt.get("post"))[:300], b.label() if b else "",
@@ -514,11 +627,10 @@ def check_traces(rep, binds, nev, seed, label):
         tid, k = p["tr"], p["k"]
         if tid in rejected or tid not in raw:
             continue
-        b, nd0, obs = raw[tid]
+        b, obs = raw[tid]
         if k >= len(obs) or "exception" in obs[k]:
             continue
         ad = Adapter(b)
-        ad._nd0 = nd0
         got = obs[k]
         exp = ad.expected(p["obs"], got["err"], got)
         d = rp.diff(exp, got, rtol=RTOL)
@@ -567,15 +679,17 @@ def run(rep, tier, seed):
         rep.violation("tlc:" + res.violation["name"], "TLC: %s violated in the specification" % res.violation["name"],
                       {"direction": "tlc", "trace": res.violation["trace"][:20000]})
     seen = {(e["act"]["n"], e["act"].get("cold"), e["act"].get("retain"), e["err"]) for e in g.edges}
-    need = [("SetTemperature", None, None, ""), ("SetDim", True, False, ""), ("SetDim", False, False, ""), ("SetDim", False, True, ""),
+    need = [("Ramp", None, None, ""), ("Copy", None, None, ""), ("SetTemperature", None, None, ""), ("SetDim", True, False, ""), ("SetDim", False, False, ""), ("SetDim", False, True, ""),
             ("SetDim", False, False, "RuntimeError"), ("SetLink", None, None, "")]
     missing = [x for x in need if x not in seen]
     if missing or not g.edges:
         raise tlc.MachineryError("vacuous emission: no edge of kind %s" % missing)
     nt = 4 if thorough else 3
     mats, shaperoles = inventory(rep, nt)
-    binds = bindings(mats, shaperoles, thorough, nt, rng if thorough else None)
-    n, nontriv, nedges, divs, sample = replay_bindings(rep, g, states, binds, 20 if thorough else (8 if _SELFTEST else 24), rng)
+    avail = {tuple(st["vars"]["kind"][:2]) for st in states.values()}
+    binds = bindings(mats, shaperoles, thorough, nt, rng if thorough else None, avail)
+    rep.extra["inventory"]["declared_range_end_where_the_correlation_is_not_a_finite_real"] = dict(G.END_NOT_USABLE)
+    n, nontriv, nedges, divs, sample = replay_bindings(rep, g, states, binds, 20 if thorough else (8 if _SELFTEST else 18), rng)
     if n == 0:
         raise tlc.MachineryError("nothing replayed")
     rep.add_replay("edges-on-shape-x-material-pairs", n, nontriv,
@@ -606,8 +720,13 @@ def run(rep, tier, seed):
     rep.assume(
         "material inputs: f(T) = 1 + linearExpansionPercent(T)/100 (fluids: pseudoDensity(T)) measured once per material and temperature "
         "from a fresh material instance; the VALUE of a correlation is an input, the laws relating observations are checked",
-        "temperatures: fractions %s (thorough: seeded random fractions per pair) of the intersection of the ranges the two materials' correlations themselves check (checkTempRange "
-        "calls recorded); materials that check nothing use %s C (listed in coverage.inventory)" % (list(FRACS[nt]), list(G.DEFAULT_RANGE_C)),
+        "temperatures: one table per pair inside the intersection of the ranges the two materials' correlations themselves check "
+        "(checkTempRange calls recorded; materials that check nothing use %s C, listed in coverage.inventory); tables contain the exact "
+        "range ends, exactly 0.0 degC where it is in the range, pairs 0.05-0.09 degC apart, and fractions of the range (fixed in quick, "
+        "seeded random in thorough)" % (list(G.DEFAULT_RANGE_C),),
+        "Ramp = k (40-600) setTemperature calls in steps of 0.05-0.09 degC through temperatures outside the table, ending exactly at a "
+        "table temperature; the end state is compared with the direct jump (rtol 1e-9)",
+        "Copy = copy.copy(component) put into the same block; one duplicate per behaviour; nothing is linked to the duplicate",
         "materials whose linearExpansionPercent is identically 0 ('inert': no correlation implemented) are modelled with the documented "
         "refusal: reading / hot-setting a length at T != Tinput raises RuntimeError, setTemperature leaves the densities unchanged",
         "path independence is from a fixed constructed component (Tinput, Thot, dimensions): construction at another Thot is a different "
@@ -627,7 +746,6 @@ def replay(payload):
         b = binding_from(payload["binding"])
         ad = Adapter(b)
         w = ad.build(payload["root"])
-        ad._nd0 = w.nd0
         print("binding:", b.label(), "kinds", b.kinds)
         try:
             for a in payload["behaviour"]:
@@ -768,11 +886,39 @@ def selftest():
             return self.p.area
         return self.getThermalExpansionFactor(self.temperatureInC if Tc is None else Tc) * self.p.area
 
+    orig_set_temperature = C.setTemperature
+
+    def set_temperature_ignores_zero(self, temperatureInC):
+        if not temperatureInC:
+            return
+        return orig_set_temperature(self, temperatureInC)
+
+    def reduction_deadband(self, prevTempInC, newTempInC):
+        if abs(newTempInC - prevTempInC) < 0.1:
+            return 1.0
+        dLL = self.linearExpansionFactor(Tc=newTempInC, T0=prevTempInC)
+        return 1.0 / (1 + dLL) ** 2
+
+    def copy_plain_deepcopy(self):
+        return copy.deepcopy(self)
+
+    def copy_shares_params(self):
+        new = orig_copy(self)
+        new.p.numberDensities = self.p.numberDensities      # the duplicate's densities alias the source's dict
+        new.material = self.material
+        return new
+
+    orig_copy = C.__copy__
+
     from armi.materials.uZr import UZr
     from armi.reactor import components as comps
 
     P = patched
     mutants = [
+        ("seed 2: setTemperature(0.0) silently ignored", lambda: P(C, "setTemperature", set_temperature_ignores_zero)),
+        ("seed 4: no density change for steps below 0.1 degC", lambda: P(M, "getThermalExpansionDensityReduction", reduction_deadband)),
+        ("seed 5: __copy__ is a plain deepcopy (links frozen)", lambda: P(C, "__copy__", copy_plain_deepcopy)),
+        ("__copy__ shares material and density dict with its source", lambda: P(C, "__copy__", copy_shares_params)),
         ("setTemperature reduces from Tinput instead of the previous T", lambda: P(C, "setTemperature", set_temperature_from_input)),
         ("UZr only: density reduction with exponent 3", lambda: P(UZr, "getThermalExpansionDensityReduction", reduction_cubed)),
         ("UnshapedComponent area grows linearly", lambda: P(comps.UnshapedComponent, "getComponentArea", unshaped_area_linear)),
